@@ -64,8 +64,11 @@ static void ms_merge_cb(void *clos, const uint8_t *key, size_t lk, const uint8_t
 }
 static int dupsort_bytes(void *clos, const uint8_t *key, size_t lk, const uint8_t *v0, size_t l0, const uint8_t *v1, size_t l1)
 {
-	(void)clos; (void)key; (void)lk;
-	return key_cmp(v0, l0, v1, l1);
+	(void)clos;
+	/* like memcmp-style user comparators: any negative / positive magnitude, not just -1 / +1 */
+	static const int MAG[] = {1, 1, 7, 255, 1 << 20, INT_MAX};
+	int c = key_cmp(v0, l0, v1, l1);
+	return c * MAG[(lk + (lk ? key[lk - 1] : 0) + l0 + l1) % 6];
 }
 
 /* ------------------------------------------------------------------ user-defined sources */
